@@ -4,8 +4,9 @@
 
   Everything about derivatives that these proofs need is taken as ONE hypothesis bundle
   `ClosureFacts ord Good` (derivatives are left quotients, nullable = accepts the empty word, the
-  derivative classes cover the alphabet and have representatives).  The bundle is discharged in
-  Props/C19.lean (final section) from the C03 theorems when they are available.
+  derivative classes cover the alphabet and have representatives).  The three class fields follow
+  from C11 for well-formed partitions (Props/C19.lean `closureFacts_of_class_wf`); the whole bundle
+  is discharged in Props/C19Final.lean (`Smt.C19.closureFacts`) from the C03 theorems.
 
   Contents
   * `cachedDeriv_classOfChar`, `cachedDeriv_of_mem`   `cached_deriv` through a class id = `deriv`
@@ -366,7 +367,7 @@ theorem BInv.step (F : ClosureFacts ord Good) {e : RE} (hg : Good e) {all : List
       rw [hdc]
       exact (h.reach r hrmem).step hc
   · intro x hx c hc
-    rw [← hext, List.take_append_of_le_length (by omega), List.take_succ, hr] at hx
+    rw [← hext, List.take_append_of_le_length (by omega), List.take_add_one, hr] at hx
     simp only [Option.toList_some, List.mem_append, List.mem_singleton] at hx
     rcases hx with hx | rfl
     · exact mem_pushAll.2 (.inl (h.closed x hx c hc))
@@ -536,7 +537,7 @@ theorem isEmptyLoop_spec (F : ClosureFacts ord Good) {e : RE} (hg : Good e) :
         apply ih (pushAll all ds) (i + 1) (h.step F hg hr hds)
         intro x hx
         obtain ⟨ext, hext⟩ := pushAll_prefix all ds
-        rw [← hext, List.take_append_of_le_length (by omega), List.take_succ, hr] at hx
+        rw [← hext, List.take_append_of_le_length (by omega), List.take_add_one, hr] at hx
         simp only [Option.toList_some, List.mem_append, List.mem_singleton] at hx
         rcases hx with hx | rfl
         · exact hn x hx
@@ -570,6 +571,736 @@ theorem isEmptyLoop_mono {fuel fuel' : Nat} (hle : fuel ≤ fuel') {all : List R
   induction hle with
   | refl => exact h
   | step _ ih => exact isEmptyLoop_succ_fuel _ _ _ _ ih
+
+/-! ### `LabeledQueue` -/
+
+/-- the nodes of the map, in insertion order (= the BFS list `all`) -/
+def nodes (m : List LqEntry) : List RE := m.map (·.node)
+
+theorem nodes_append (m m' : List LqEntry) : nodes (m ++ m') = nodes m ++ nodes m' := by
+  simp [nodes]
+
+theorem lqFind_some {m : List LqEntry} {x : RE} {ent : LqEntry} (h : lqFind m x = some ent) :
+    ent ∈ m ∧ ent.node = x := by
+  unfold lqFind at h
+  have h1 := List.mem_of_find?_eq_some h
+  have h2 := List.find?_some h
+  exact ⟨h1, by simpa using h2⟩
+
+theorem lqFind_none_iff {m : List LqEntry} {x : RE} : lqFind m x = none ↔ x ∉ nodes m := by
+  unfold lqFind nodes
+  rw [List.find?_eq_none]
+  simp only [decide_eq_true_eq, List.mem_map, not_exists, not_and]
+
+theorem lqFind_isSome_of_mem {m : List LqEntry} {x : RE} (h : x ∈ nodes m) :
+    ∃ ent, lqFind m x = some ent := by
+  cases hf : lqFind m x with
+  | none => exact absurd h (lqFind_none_iff.1 hf)
+  | some ent => exact ⟨ent, rfl⟩
+
+theorem lqFind_append {m : List LqEntry} {x : RE} {ent : LqEntry} (h : lqFind m x = some ent)
+    (ext : List LqEntry) : lqFind (m ++ ext) x = some ent := by
+  unfold lqFind at h ⊢
+  rw [List.find?_append, h]
+  rfl
+
+theorem nodes_lqPush (m : List LqEntry) (pre : RE) (label : ClassId) (suc : RE) :
+    nodes (lqPush m pre label suc) = bfsPush (nodes m) suc := by
+  unfold lqPush
+  cases hf : lqFind m suc with
+  | some ent =>
+    obtain ⟨h1, h2⟩ := lqFind_some hf
+    have : suc ∈ nodes m := by rw [← h2]; exact List.mem_map_of_mem h1
+    simp only [bfsPush_of_mem this]
+  | none =>
+    have := lqFind_none_iff.1 hf
+    simp only [bfsPush_of_not_mem this, nodes_append]
+    rfl
+
+/-- pushing all class derivatives of `r` with their labels -/
+def lqPushAll (m : List LqEntry) (r : RE) (ds : List (ClassId × RE)) : List LqEntry :=
+  ds.foldl (fun a d => lqPush a r d.1 d.2) m
+
+theorem nodes_lqPushAll (m : List LqEntry) (r : RE) (ds : List (ClassId × RE)) :
+    nodes (lqPushAll m r ds) = pushAll (nodes m) ds := by
+  induction ds generalizing m with
+  | nil => rfl
+  | cons d ds ih =>
+    change nodes (lqPushAll (lqPush m r d.1 d.2) r ds) = _
+    rw [ih, nodes_lqPush, pushAll_cons]
+
+/-- Well-formed labeled queue (T:labeled_path_wellformed): the root has no edge; every other entry
+    `suc` records an edge `(label, pre)` with `pre` an EARLIER entry, `label` a class id of `pre`
+    and `suc = class_derivative(pre, label)`. -/
+inductive LqWF (ord : RE → Nat) (e : RE) : List LqEntry → Prop
+  | root : LqWF ord e [⟨e, none⟩]
+  | snoc {m : List LqEntry} {pre : RE} {label : ClassId} {suc : RE} :
+      LqWF ord e m → pre ∈ nodes m → label ∈ pre.derivClass.classIds →
+      cachedDeriv ord pre label = some suc → LqWF ord e (m ++ [⟨suc, some (label, pre)⟩])
+
+theorem LqWF.lqPush {e : RE} {m : List LqEntry} (h : LqWF ord e m) {pre : RE} {label : ClassId}
+    {suc : RE} (hpre : pre ∈ nodes m) (hl : label ∈ pre.derivClass.classIds)
+    (hd : cachedDeriv ord pre label = some suc) : LqWF ord e (lqPush m pre label suc) := by
+  unfold RE.lqPush
+  cases lqFind m suc with
+  | some _ => exact h
+  | none => exact .snoc h hpre hl hd
+
+theorem LqWF.lqPushAll {e : RE} {r : RE} {ds : List (ClassId × RE)}
+    (hds : ∀ d ∈ ds, d.1 ∈ r.derivClass.classIds ∧ cachedDeriv ord r d.1 = some d.2) :
+    ∀ {m : List LqEntry}, LqWF ord e m → r ∈ nodes m → LqWF ord e (lqPushAll m r ds) := by
+  induction ds with
+  | nil => intro m h _; exact h
+  | cons d ds ih =>
+    intro m h hr
+    have hd := hds d (by simp)
+    change LqWF ord e (RE.lqPushAll (RE.lqPush m r d.1 d.2) r ds)
+    apply ih (fun d' hd' => hds d' (by simp [hd'])) (h.lqPush hr hd.1 hd.2)
+    rw [nodes_lqPush]
+    exact mem_bfsPush.2 (.inl hr)
+
+/-- index form of `LqWF` -/
+theorem LqWF.index_form {e : RE} {m : List LqEntry} (h : LqWF ord e m) :
+    m[0]? = some ⟨e, none⟩ ∧
+    ∀ k (hk : k < m.length), 0 < k →
+      ∃ label pre j, ∃ hj : j < k, m[k].edge = some (label, pre) ∧ (m[j]'(by omega)).node = pre ∧
+        label ∈ pre.derivClass.classIds ∧ cachedDeriv ord pre label = some m[k].node := by
+  induction h with
+  | root => exact ⟨rfl, fun k hk hk0 => by simp at hk; omega⟩
+  | @snoc m pre label suc hm hpre hl hd ih =>
+    have hlen : 0 < m.length := by
+      cases m with
+      | nil => simp [nodes] at hpre
+      | cons _ _ => simp
+    refine ⟨by rw [List.getElem?_append_left hlen]; exact ih.1, ?_⟩
+    intro k hk hk0
+    simp only [List.length_append, List.length_singleton] at hk
+    by_cases hkm : k < m.length
+    · obtain ⟨label', pre', j, hj, h1, h2, h3, h4⟩ := ih.2 k hkm hk0
+      refine ⟨label', pre', j, hj, ?_, ?_, h3, ?_⟩
+      · rw [List.getElem_append_left hkm]; exact h1
+      · rw [List.getElem_append_left (by omega)]; exact h2
+      · rw [List.getElem_append_left hkm]; exact h4
+    · have hkeq : k = m.length := by omega
+      subst hkeq
+      obtain ⟨j, hj, hjn⟩ := List.getElem_of_mem hpre
+      simp only [nodes, List.length_map] at hj
+      refine ⟨label, pre, j, hj, by simp, ?_, hl, by simpa using hd⟩
+      rw [List.getElem_append_left hj]
+      simpa [nodes] using hjn
+
+/-- a path read backwards (destination first), as `EdgeIterator` yields it -/
+def RevPath (ord : RE → Nat) (e : RE) : List (RE × ClassId) → RE → Prop
+  | [], dest => dest = e
+  | (n, l) :: rest, dest =>
+    l ∈ n.derivClass.classIds ∧ cachedDeriv ord n l = some dest ∧ RevPath ord e rest n
+
+/-- the documented contract of `get_string_path` / `full_path`: the first term is `cur`, each
+    class id is valid for its term, each next term is the class derivative, the path ends in `dest` -/
+def PathFrom (ord : RE → Nat) : RE → List (RE × ClassId) → RE → Prop
+  | cur, [], dest => cur = dest
+  | cur, (n, l) :: rest, dest =>
+    n = cur ∧ l ∈ n.derivClass.classIds ∧
+      ∃ nxt, cachedDeriv ord n l = some nxt ∧ PathFrom ord nxt rest dest
+
+theorem PathFrom.snoc {cur : RE} {p : List (RE × ClassId)} {n : RE} (h : PathFrom ord cur p n)
+    {l : ClassId} {dest : RE} (hl : l ∈ n.derivClass.classIds)
+    (hd : cachedDeriv ord n l = some dest) : PathFrom ord cur (p ++ [(n, l)]) dest := by
+  induction p generalizing cur with
+  | nil =>
+    simp only [PathFrom] at h
+    subst h
+    exact ⟨rfl, hl, dest, hd, rfl⟩
+  | cons a p ih =>
+    obtain ⟨n', l'⟩ := a
+    obtain ⟨h1, h2, nxt, h3, h4⟩ := h
+    exact ⟨h1, h2, nxt, h3, ih h4⟩
+
+theorem RevPath.reverse {e : RE} {w : List (RE × ClassId)} {dest : RE}
+    (h : RevPath ord e w dest) : PathFrom ord e w.reverse dest := by
+  induction w generalizing dest with
+  | nil =>
+    simp only [RevPath] at h
+    subst h
+    exact rfl
+  | cons a w ih =>
+    obtain ⟨n, l⟩ := a
+    obtain ⟨h1, h2, h3⟩ := h
+    rw [List.reverse_cons]
+    exact (ih h3).snoc h1 h2
+
+theorem lqWalk_none_edge (m : List LqEntry) (f : Nat) : lqWalk m f none = some [] := by
+  cases f <;> rfl
+
+theorem lqWalk_mono {m : List LqEntry} (ext : List LqEntry) :
+    ∀ (f : Nat) (ed : Option (ClassId × RE)) (w : List (RE × ClassId)) (f' : Nat),
+      lqWalk m f ed = some w → f ≤ f' → lqWalk (m ++ ext) f' ed = some w := by
+  intro f
+  induction f with
+  | zero =>
+    intro ed w f' h _
+    cases ed with
+    | none => rw [lqWalk_none_edge] at h ⊢; exact h
+    | some p => simp [lqWalk] at h
+  | succ f ih =>
+    intro ed w f' h hle
+    cases ed with
+    | none => rw [lqWalk_none_edge] at h ⊢; exact h
+    | some p =>
+      obtain ⟨label, node⟩ := p
+      obtain ⟨f'', rfl⟩ : ∃ f'', f' = f'' + 1 := ⟨f' - 1, by omega⟩
+      rw [lqWalk] at h ⊢
+      cases hf : lqFind m node with
+      | none => rw [hf] at h; cases h
+      | some ent =>
+        rw [hf] at h
+        rw [lqFind_append hf]
+        simp only at h ⊢
+        cases hw : lqWalk m f ent.edge with
+        | none => rw [hw] at h; cases h
+        | some w' =>
+          rw [hw] at h
+          rw [ih _ _ _ hw (by omega)]
+          exact h
+
+/-- from every entry the predecessor walk succeeds within `m.length` steps (predecessors are
+    strictly earlier) and yields a path from the root -/
+theorem LqWF.walk {e : RE} {m : List LqEntry} (h : LqWF ord e m) :
+    ∀ ent ∈ m, ∃ w, lqWalk m m.length ent.edge = some w ∧ RevPath ord e w ent.node := by
+  induction h with
+  | root =>
+    intro ent hent
+    simp only [List.mem_singleton] at hent
+    subst hent
+    exact ⟨[], rfl, rfl⟩
+  | @snoc m pre label suc hm hpre hl hd ih =>
+    intro ent hent
+    rcases List.mem_append.1 hent with hent | hent
+    · obtain ⟨w, hw, hp⟩ := ih ent hent
+      exact ⟨w, lqWalk_mono _ _ _ _ _ hw (by simp), hp⟩
+    · simp only [List.mem_singleton] at hent
+      subst hent
+      obtain ⟨pe, hpe⟩ := lqFind_isSome_of_mem hpre
+      obtain ⟨hpem, hpen⟩ := lqFind_some hpe
+      obtain ⟨w, hw, hp⟩ := ih pe hpem
+      refine ⟨(pre, label) :: w, ?_, hl, hd, by rw [← hpen]; exact hp⟩
+      simp only [List.length_append, List.length_singleton]
+      rw [lqWalk, lqFind_append hpe]
+      simp only
+      rw [lqWalk_mono _ _ _ _ _ hw (Nat.le_refl _)]
+      rfl
+
+/-- `full_path(dest)` of a visited node is a path from the root to `dest` -/
+theorem LqWF.fullPath {e : RE} {m : List LqEntry} (h : LqWF ord e m) {dest : RE}
+    (hd : dest ∈ nodes m) : ∃ p, lqFullPath m dest = some p ∧ PathFrom ord e p dest := by
+  obtain ⟨ent, hent⟩ := lqFind_isSome_of_mem hd
+  obtain ⟨hm, hn⟩ := lqFind_some hent
+  obtain ⟨w, hw, hp⟩ := h.walk ent hm
+  refine ⟨w.reverse, ?_, by rw [← hn]; exact hp.reverse⟩
+  unfold lqFullPath
+  rw [hent]
+  simp only
+  have := lqWalk_mono (m := m) [] _ _ _ (m.length + 1) hw (by omega)
+  rw [List.append_nil] at this
+  rw [this]
+  rfl
+
+/-! ### from a path to a string -/
+
+/-- the representatives of the classes along a path: they exist (no `pick_class_rep` panic), form a
+    well-formed string, and the string leads from `cur` to `dest` -/
+theorem PathFrom.string (F : ClosureFacts ord Good) :
+    ∀ (p : List (RE × ClassId)) {cur dest : RE}, Good cur → PathFrom ord cur p dest →
+      ∃ s, p.mapM (fun (x : RE × ClassId) => x.1.derivClass.pickInClass x.2) = some s ∧
+        WFs s ∧ strDerivative ord cur s = dest := by
+  intro p
+  induction p with
+  | nil =>
+    intro cur dest _ h
+    simp only [PathFrom] at h
+    subst h
+    exact ⟨[], rfl, wfs_nil', rfl⟩
+  | cons a p ih =>
+    intro cur dest hg h
+    obtain ⟨n, l⟩ := a
+    obtain ⟨h1, h2, nxt, h3, h4⟩ := h
+    subst h1
+    obtain ⟨c, hc, hp, _, hcd⟩ := cachedDeriv_of_mem F hg h2
+    rw [hcd] at h3
+    have hnxt : nxt = deriv ord n c := (Option.some.inj h3).symm
+    subst hnxt
+    obtain ⟨s, hs, hwf, hsd⟩ := ih (F.deriv_good n c hg hc) h4
+    refine ⟨c :: s, ?_, wfs_cons'.2 ⟨hc, hwf⟩, by rw [strDerivative_cons]; exact hsd⟩
+    rw [List.mapM_cons]
+    simp only [hp, hs]
+    rfl
+
+/-! ### `pathLoop` -/
+
+theorem pathLoop_spec (F : ClosureFacts ord Good) {e : RE} (hg : Good e) :
+    ∀ (fuel : Nat) (m : List LqEntry) (i : Nat), LqWF ord e m → BInv ord e (nodes m) i →
+      (∀ x ∈ (nodes m).take i, x.nullable = false) →
+      pathLoop ord fuel m i ≠ .panic ∧
+      (pathLoop ord fuel m i = .ok none →
+        ∃ l, BInv ord e l l.length ∧ ∀ x ∈ l, x.nullable = false) ∧
+      (∀ p, pathLoop ord fuel m i = .ok (some p) →
+        ∃ dest, dest.nullable = true ∧ PathFrom ord e p dest) := by
+  intro fuel
+  induction fuel with
+  | zero => intro m i _ _ _; simp [pathLoop]
+  | succ fuel ih =>
+    intro m i hwf h hn
+    rw [pathLoop]
+    cases hr : m[i]? with
+    | none =>
+      have hr' : (nodes m)[i]? = none := by simp [nodes, hr]
+      simp only [ne_eq, reduceCtorEq, not_false_eq_true, forall_const, Res.ok.injEq,
+        false_imp_iff, and_true, true_and]
+      have hf := h.final hr'
+      have : (nodes m).length ≤ i := List.getElem?_eq_none_iff.1 hr'
+      refine ⟨nodes m, hf, ?_⟩
+      intro x hx
+      exact hn x (by rwa [List.take_of_length_le this])
+    | some ent =>
+      have hr' : (nodes m)[i]? = some ent.node := by simp [nodes, hr]
+      obtain ⟨hi, hri⟩ := List.getElem?_eq_some_iff.1 hr'
+      have hmem : ent.node ∈ nodes m := by rw [← hri]; exact List.getElem_mem hi
+      simp only
+      cases hnr : ent.node.nullable with
+      | true =>
+        obtain ⟨p, hp, hpath⟩ := hwf.fullPath hmem
+        simp only [if_true, hp, ne_eq, reduceCtorEq, not_false_eq_true, Res.ok.injEq,
+          false_imp_iff, Option.some.injEq, true_and]
+        rintro p' rfl
+        exact ⟨ent.node, hnr, hpath⟩
+      | false =>
+        have hgr := h.good_at F hg hr'
+        obtain ⟨ds, hds⟩ := classDerivs_isSome F hgr
+        simp only [Bool.false_eq_true, if_false, hds]
+        have hwf' : LqWF ord e (lqPushAll m ent.node ds) := by
+          apply LqWF.lqPushAll _ hwf hmem
+          intro d hd
+          exact ⟨(classDerivs_mem F hgr hds hd).1, (classDerivs_some hds).2 d hd⟩
+        have hinv := h.step F hg hr' hds
+        rw [← nodes_lqPushAll m ent.node ds] at hinv
+        apply ih (lqPushAll m ent.node ds) (i + 1) hwf' hinv
+        intro x hx
+        rw [nodes_lqPushAll] at hx
+        obtain ⟨ext, hext⟩ := pushAll_prefix (nodes m) ds
+        rw [← hext, List.take_append_of_le_length (by omega), List.take_add_one, hr'] at hx
+        simp only [Option.toList_some, List.mem_append, List.mem_singleton] at hx
+        rcases hx with hx | rfl
+        · exact hn x hx
+        · exact hnr
+
+theorem pathLoop_succ_fuel : ∀ (fuel : Nat) (m : List LqEntry) (i : Nat)
+    (r : Option (List (RE × ClassId))),
+    pathLoop ord fuel m i = .ok r → pathLoop ord (fuel + 1) m i = .ok r := by
+  intro fuel
+  induction fuel with
+  | zero => intro m i r h; simp [pathLoop] at h
+  | succ fuel ih =>
+    intro m i r h
+    rw [pathLoop] at h
+    rw [pathLoop]
+    cases hr : m[i]? with
+    | none => rw [hr] at h; exact h
+    | some ent =>
+      rw [hr] at h
+      simp only at h ⊢
+      split
+      · rename_i hn; rw [if_pos hn] at h; exact h
+      · rename_i hn
+        rw [if_neg hn] at h
+        cases hds : classDerivs ord ent.node with
+        | none => rw [hds] at h; cases h
+        | some ds =>
+          rw [hds] at h
+          exact ih _ _ _ h
+
+theorem pathLoop_mono {fuel fuel' : Nat} (hle : fuel ≤ fuel') {m : List LqEntry} {i : Nat}
+    {r : Option (List (RE × ClassId))} (h : pathLoop ord fuel m i = .ok r) :
+    pathLoop ord fuel' m i = .ok r := by
+  induction hle with
+  | refl => exact h
+  | step _ ih => exact pathLoop_succ_fuel _ _ _ _ ih
+
+/-! ### the builder's key numbering during `compile_with_bound` -/
+
+/-- the builder has seen exactly the keys `0 .. n-1` (so `size = n`) -/
+def BK (n : Nat) (b : Builder) : Prop :=
+  b.size = n ∧ ∀ k, (b.idMap.lookup k).isSome = true ↔ k < n
+
+theorem BK.congr {n : Nat} {b b' : Builder} (h : BK n b) (h1 : b'.size = b.size)
+    (h2 : b'.idMap = b.idMap) : BK n b' := by
+  unfold BK
+  rw [h1, h2]
+  exact h
+
+theorem BK.new : BK 1 (Builder.new 0) := by
+  refine ⟨rfl, fun k => ?_⟩
+  simp only [Builder.new, Builder.getStateId, Builder.empty, List.lookup_nil, List.nil_append,
+    List.lookup_cons, List.lookup_nil]
+  by_cases hk : k = 0
+  · subst hk; simp
+  · have : (k == 0) = false := by simpa using hk
+    simp only [this]
+    simp
+    omega
+
+theorem BK.getStateId_lt {n : Nat} {b : Builder} (h : BK n b) {k : Nat} (hk : k < n) :
+    (b.getStateId k).1 = b := by
+  have := (h.2 k).2 hk
+  unfold Builder.getStateId
+  cases hl : b.idMap.lookup k with
+  | none => rw [hl] at this; cases this
+  | some i => rfl
+
+theorem lookup_append_single (l : List (Nat × Nat)) (a k v : Nat) :
+    (l ++ [(a, v)]).lookup k = (l.lookup k).or (if k = a then some v else none) := by
+  induction l with
+  | nil =>
+    simp only [List.nil_append, List.lookup_cons, List.lookup_nil, Option.none_or]
+    by_cases hk : k = a
+    · subst hk; simp
+    · have : (k == a) = false := by simpa using hk
+      simp [this, hk]
+  | cons x l ih =>
+    obtain ⟨x1, x2⟩ := x
+    simp only [List.cons_append, List.lookup_cons]
+    cases (k == x1)
+    · simpa using ih
+    · simp
+
+theorem BK.getStateId_eq {n : Nat} {b : Builder} (h : BK n b) :
+    BK (n + 1) (b.getStateId n).1 := by
+  have hn : ¬ (b.idMap.lookup n).isSome = true := by
+    rw [h.2 n]; omega
+  unfold Builder.getStateId
+  cases hl : b.idMap.lookup n with
+  | some i => rw [hl] at hn; simp at hn
+  | none =>
+    refine ⟨by simp [h.1], fun k => ?_⟩
+    simp only [lookup_append_single]
+    by_cases hk : k = n
+    · subst hk; simp [hl]
+    · simp only [if_neg hk, Option.or_none]
+      rw [h.2 k]
+      omega
+
+/-- mentioning a key `k ≤ n` -/
+theorem BK.getStateId_le {n : Nat} {b : Builder} (h : BK n b) {k : Nat} (hk : k ≤ n) :
+    BK (max n (k + 1)) (b.getStateId k).1 := by
+  by_cases hlt : k < n
+  · rw [h.getStateId_lt hlt, Nat.max_eq_left (by omega)]
+    exact h
+  · have : k = n := by omega
+    subst this
+    rw [Nat.max_eq_right (by omega)]
+    exact h.getStateId_eq
+
+theorem BK.addTransition {n : Nat} {b : Builder} (h : BK n b) {k k' : Nat} (hk : k < n)
+    (hk' : k' ≤ n) (set : CharSet) : BK (max n (k' + 1)) (b.addTransition k set k') := by
+  have h1 : ((b.getStateId k).1.getStateId k').1 = (b.getStateId k').1 := by
+    rw [h.getStateId_lt hk]
+  have := h.getStateId_le hk'
+  rw [← h1] at this
+  exact this.congr rfl rfl
+
+theorem BK.setDefaultSuccessor {n : Nat} {b : Builder} (h : BK n b) {k k' : Nat} (hk : k < n)
+    (hk' : k' ≤ n) : BK (max n (k' + 1)) (b.setDefaultSuccessor k k') := by
+  have h1 : ((b.getStateId k).1.getStateId k').1 = (b.getStateId k').1 := by
+    rw [h.getStateId_lt hk]
+  have := h.getStateId_le hk'
+  rw [← h1] at this
+  exact this.congr rfl rfl
+
+theorem BK.markFinal {n : Nat} {b : Builder} (h : BK n b) {k : Nat} (hk : k < n) :
+    BK n (b.markFinal k) := by
+  have h1 := h.getStateId_lt hk
+  have : BK n (b.getStateId k).1 := by rw [h1]; exact h
+  exact this.congr rfl rfl
+
+theorem buildUnchecked_numStates {b : Builder} {A : Automaton} (h : b.buildUnchecked = some A) :
+    A.numStates = b.size := by
+  unfold Builder.buildUnchecked at h
+  split at h
+  · cases h
+  · cases h; rfl
+
+/-! ### `idxOf` after a push -/
+
+theorem idxOf_bfsPush (all : List RE) (d : RE) :
+    idxOf (bfsPush all d) d ≤ all.length ∧
+    max all.length (idxOf (bfsPush all d) d + 1) = (bfsPush all d).length := by
+  by_cases hd : d ∈ all
+  · rw [bfsPush_of_mem hd]
+    have : idxOf all d < all.length := by
+      unfold idxOf
+      apply List.findIdx_lt_length_of_exists
+      exact ⟨d, hd, by simp⟩
+    omega
+  · rw [bfsPush_of_not_mem hd]
+    have : idxOf (all ++ [d]) d = all.length := by
+      unfold idxOf
+      rw [List.findIdx_append]
+      have hnone : List.findIdx (fun x => decide (x = d)) all = all.length := by
+        rw [List.findIdx_eq_length]
+        intro x hx
+        simpa using fun h : x = d => hd (h ▸ hx)
+      rw [hnone]
+      simp
+    rw [this]
+    simp
+
+/-- one push together with the builder call that mentions the pushed term -/
+theorem BK.push_addTransition {all : List RE} {b : Builder} (h : BK all.length b) {kr : Nat}
+    (hkr : kr < all.length) (set : CharSet) (d : RE) :
+    BK (bfsPush all d).length (b.addTransition kr set (idxOf (bfsPush all d) d)) := by
+  obtain ⟨h1, h2⟩ := idxOf_bfsPush all d
+  rw [← h2]
+  exact h.addTransition hkr h1 set
+
+theorem BK.push_setDefault {all : List RE} {b : Builder} (h : BK all.length b) {kr : Nat}
+    (hkr : kr < all.length) (d : RE) :
+    BK (bfsPush all d).length (b.setDefaultSuccessor kr (idxOf (bfsPush all d) d)) := by
+  obtain ⟨h1, h2⟩ := idxOf_bfsPush all d
+  rw [← h2]
+  exact h.setDefaultSuccessor hkr h1
+
+/-! ### `compileRanges` / `compileLoop` discover terms exactly like `iterLoop` -/
+
+theorem compileRanges_spec {r : RE} {kr : Nat} :
+    ∀ (sets : List CharSet) (ds : List (ClassId × RE)),
+      List.Forall₂ (fun set d => setDerivativeUnchecked ord r set = some d.2) sets ds →
+      ∀ (all : List RE) (b : Builder), kr < all.length → BK all.length b →
+      ∃ b', compileRanges ord r kr sets all b = some (pushAll all ds, b') ∧
+        BK (pushAll all ds).length b' := by
+  intro sets ds h
+  induction h with
+  | nil => intro all b _ hb; exact ⟨b, rfl, hb⟩
+  | @cons set d sets ds hd _ ih =>
+    intro all b hkr hb
+    rw [compileRanges, hd]
+    simp only
+    have hlen : all.length ≤ (bfsPush all d.2).length := (bfsPush_prefix all d.2).length_le
+    obtain ⟨b', hb', hbk⟩ := ih (bfsPush all d.2) _ (by omega) (hb.push_addTransition hkr set d.2)
+    exact ⟨b', hb', hbk⟩
+
+/-- the pairs of `classDerivs` split into the interval classes (matching `char_ranges()`) and the
+    optional complementary class -/
+theorem classDerivs_split (F : ClosureFacts ord Good) {r : RE} (hg : Good r)
+    {ds : List (ClassId × RE)} (hds : classDerivs ord r = some ds) :
+    ∃ ds1 ds2, ds = ds1 ++ ds2 ∧
+      List.Forall₂ (fun set d => setDerivativeUnchecked ord r set = some d.2)
+        r.derivClass.list ds1 ∧
+      ((r.derivClass.emptyComplement = true ∧ ds2 = []) ∨
+       (r.derivClass.emptyComplement = false ∧
+         ∃ d, ds2 = [d] ∧ classDerivativeUnchecked ord r .complement = some d.2)) := by
+  have h2 := mapM_option_some _ _ _ hds
+  set p := r.derivClass with hp
+  have hlen1 : ((List.range p.len).map ClassId.interval).length = p.list.length := by
+    simp [CharPartition.len]
+  refine ⟨ds.take p.list.length, ds.drop p.list.length, (List.take_append_drop _ _).symm, ?_, ?_⟩
+  · have h3 := List.forall₂_take p.list.length h2
+    simp only [CharPartition.classIds] at h3
+    rw [List.take_append_of_le_length (by omega), List.take_of_length_le (by omega)] at h3
+    rw [List.forall₂_iff_get] at h3 ⊢
+    obtain ⟨hl, hget⟩ := h3
+    refine ⟨by rw [← hl, hlen1], ?_⟩
+    intro i h1 h2'
+    have hi := hget i (by omega) h2'
+    simp only [List.get_eq_getElem, List.getElem_map, List.getElem_range] at hi ⊢
+    have hs : p.list[i]? = some p.list[i] := List.getElem?_eq_getElem h1
+    have hcs := F.class_set r i _ hg hs
+    have hcs' : p.classOfSet p.list[i] = .ok (.interval i) := hcs
+    simp only [setDerivativeUnchecked, ← hp, hcs']
+    cases hc : cachedDeriv ord r (.interval i) with
+    | none => rw [hc] at hi; cases hi
+    | some x =>
+      rw [hc] at hi
+      simp only [Option.map_some, Option.some.injEq] at hi
+      rw [← hi]
+  · have h3 := List.forall₂_drop p.list.length h2
+    simp only [CharPartition.classIds] at h3
+    rw [List.drop_append_of_le_length (by omega), List.drop_of_length_le (by omega),
+      List.nil_append] at h3
+    cases hec : p.emptyComplement with
+    | true =>
+      left
+      rw [hec] at h3
+      simp only [if_true, List.forall₂_nil_left_iff] at h3
+      exact ⟨rfl, h3⟩
+    | false =>
+      right
+      rw [hec] at h3
+      simp only [Bool.false_eq_true, if_false] at h3
+      refine ⟨rfl, ?_⟩
+      generalize List.drop p.list.length ds = tl at h3 ⊢
+      cases h3 with
+      | @cons _ d _ ds' hd htl =>
+        cases htl
+        refine ⟨d, rfl, ?_⟩
+        unfold classDerivativeUnchecked
+        cases hc : cachedDeriv ord r .complement with
+        | none => rw [hc] at hd; cases hd
+        | some x =>
+          rw [hc] at hd
+          simp only [Option.map_some, Option.some.injEq] at hd
+          rw [← hd]
+
+/-- one iteration of the `while let Some(e) = queue.pop()` loop of `compile_with_bound` -/
+theorem compileLoop_step (F : ClosureFacts ord Good) {r : RE} (hg : Good r) {all : List RE}
+    {i : Nat} (hr : all[i]? = some r) {ds : List (ClassId × RE)}
+    (hds : classDerivs ord r = some ds) {b : Builder} (hb : BK all.length b) {maxStates : Nat}
+    (hne : i ≠ maxStates) (fuel : Nat) :
+    ∃ b', BK (pushAll all ds).length b' ∧
+      compileLoop ord maxStates (fuel + 1) all i b =
+        compileLoop ord maxStates fuel (pushAll all ds) (i + 1) b' := by
+  obtain ⟨hi, _⟩ := List.getElem?_eq_some_iff.1 hr
+  obtain ⟨ds1, ds2, rfl, hf, h2⟩ := classDerivs_split F hg hds
+  obtain ⟨b1, hb1, hbk1⟩ := compileRanges_spec _ _ hf all b hi hb
+  have hlen1 : all.length ≤ (pushAll all ds1).length := (pushAll_prefix all ds1).length_le
+  have hbeq : (i == maxStates) = false := by simpa using hne
+  rw [compileLoop]
+  simp only [hr, hbeq, hb1, Bool.false_eq_true, if_false]
+  rcases h2 with ⟨hec, rfl⟩ | ⟨hec, d, rfl, hd⟩
+  · simp only [hec, Bool.not_true, Bool.false_eq_true, if_false, List.append_nil]
+    by_cases hn : r.nullable = true
+    · exact ⟨_, hbk1.markFinal (k := i) (by omega), by simp only [hn, if_true]⟩
+    · exact ⟨_, hbk1, by simp only [hn, Bool.false_eq_true, if_false]⟩
+  · simp only [hec, Bool.not_false, if_true, hd, pushAll_append]
+    have hbk2 := hbk1.push_setDefault (kr := i) (by omega) d.2
+    have hlen2 : (pushAll all ds1).length ≤ (bfsPush (pushAll all ds1) d.2).length :=
+      (bfsPush_prefix _ _).length_le
+    change ∃ b', BK (bfsPush (pushAll all ds1) d.2).length b' ∧ _
+    by_cases hn : r.nullable = true
+    · exact ⟨_, hbk2.markFinal (k := i) (by omega), by simp only [hn, if_true]; rfl⟩
+    · exact ⟨_, hbk2, by simp only [hn, Bool.false_eq_true, if_false]; rfl⟩
+
+/-- `compileLoop` against the result `l` of `iterLoop` from the same BFS state: it never panics;
+    it returns a builder exactly when `l.length ≤ maxStates`, and that builder has `l.length`
+    states. -/
+theorem compileLoop_vs_iter (F : ClosureFacts ord Good) {e : RE} (hg : Good e) (maxStates : Nat) :
+    ∀ (fuel : Nat) (all : List RE) (i : Nat) (b : Builder) (fuel' : Nat) (l : List RE),
+      BInv ord e all i → BK all.length b → i ≤ maxStates →
+      iterLoop ord fuel' all i = .ok l →
+      compileLoop ord maxStates fuel all i b ≠ .panic ∧
+      (compileLoop ord maxStates fuel all i b = .ok none → maxStates < l.length) ∧
+      (∀ b', compileLoop ord maxStates fuel all i b = .ok (some b') →
+        l.length ≤ maxStates ∧ b'.size = l.length) := by
+  intro fuel
+  induction fuel with
+  | zero => intro all i b fuel' l _ _ _ _; simp [compileLoop]
+  | succ fuel ih =>
+    intro all i b fuel' l h hb hi hit
+    cases fuel' with
+    | zero => simp [iterLoop] at hit
+    | succ fuel' =>
+      rw [iterLoop] at hit
+      cases hr : all[i]? with
+      | none =>
+        rw [hr] at hit
+        cases hit
+        rw [compileLoop]
+        simp only [hr, ne_eq, reduceCtorEq, not_false_eq_true, Res.ok.injEq, false_imp_iff,
+          Option.some.injEq, true_and]
+        rintro b' rfl
+        have : all.length ≤ i := List.getElem?_eq_none_iff.1 hr
+        have := h.le
+        exact ⟨by omega, hb.1⟩
+      | some r =>
+        rw [hr] at hit
+        simp only at hit
+        obtain ⟨ds, hds⟩ := classDerivs_isSome F (h.good_at F hg hr)
+        rw [hds] at hit
+        obtain ⟨hil, _⟩ := List.getElem?_eq_some_iff.1 hr
+        have hpre : all <+: l :=
+          (pushAll_prefix all ds).trans ((iterLoop_spec F hg _ _ _ (h.step F hg hr hds)).2 l hit).2
+        by_cases hmax : i = maxStates
+        · rw [compileLoop]
+          have hbeq : (i == maxStates) = true := by simpa using hmax
+          simp only [hr, hbeq, if_true, ne_eq, reduceCtorEq, not_false_eq_true, Res.ok.injEq,
+            forall_const, false_imp_iff, implies_true, and_true, true_and]
+          have := hpre.length_le
+          omega
+        · obtain ⟨b', hbk', heq⟩ :=
+            compileLoop_step F (h.good_at F hg hr) hr hds hb hmax fuel
+          rw [heq]
+          exact ih _ _ _ fuel' l (h.step F hg hr hds) hbk' (by omega) hit
+
+/-- with a bound that the remaining fuel cannot reach, the bound is never hit -/
+theorem compileLoop_ne_none (maxStates : Nat) :
+    ∀ (fuel : Nat) (all : List RE) (i : Nat) (b : Builder), i + fuel ≤ maxStates →
+      compileLoop ord maxStates fuel all i b ≠ .ok none := by
+  intro fuel
+  induction fuel with
+  | zero => intro all i b _; simp [compileLoop]
+  | succ fuel ih =>
+    intro all i b hle
+    rw [compileLoop]
+    cases hr : all[i]? with
+    | none => simp
+    | some r =>
+      have hbeq : (i == maxStates) = false := by
+        simp only [beq_eq_false_iff_ne, ne_eq]; omega
+      simp only [hbeq, Bool.false_eq_true, if_false]
+      split
+      · simp
+      · split
+        · simp
+        · exact ih _ _ _ (by omega)
+
+/-- `compileLoop` needs exactly as much fuel as `iterLoop` -/
+theorem compileLoop_fuel (F : ClosureFacts ord Good) {e : RE} (hg : Good e) (maxStates : Nat) :
+    ∀ (fuel : Nat) (all : List RE) (i : Nat) (b : Builder) (l : List RE),
+      BInv ord e all i → BK all.length b →
+      iterLoop ord fuel all i = .ok l →
+      compileLoop ord maxStates fuel all i b ≠ .outOfFuel := by
+  intro fuel
+  induction fuel with
+  | zero => intro all i b l _ _ hit; simp [iterLoop] at hit
+  | succ fuel ih =>
+    intro all i b l h hb hit
+    rw [iterLoop] at hit
+    cases hr : all[i]? with
+    | none => rw [compileLoop]; simp [hr]
+    | some r =>
+      rw [hr] at hit
+      simp only at hit
+      obtain ⟨ds, hds⟩ := classDerivs_isSome F (h.good_at F hg hr)
+      rw [hds] at hit
+      by_cases hmax : i = maxStates
+      · rw [compileLoop]
+        have hbeq : (i == maxStates) = true := by simpa using hmax
+        simp [hr, hbeq]
+      · obtain ⟨b', hbk', heq⟩ :=
+          compileLoop_step F (h.good_at F hg hr) hr hds hb hmax fuel
+        rw [heq]
+        exact ih _ _ _ l (h.step F hg hr hds) hbk' hit
+
+/-- the BFS loop of `compile_with_bound` never panics, whether or not it terminates -/
+theorem compileLoop_no_panic (F : ClosureFacts ord Good) {e : RE} (hg : Good e) (maxStates : Nat) :
+    ∀ (fuel : Nat) (all : List RE) (i : Nat) (b : Builder),
+      BInv ord e all i → BK all.length b →
+      compileLoop ord maxStates fuel all i b ≠ .panic := by
+  intro fuel
+  induction fuel with
+  | zero => intro all i b _ _; simp [compileLoop]
+  | succ fuel ih =>
+    intro all i b h hb
+    cases hr : all[i]? with
+    | none => rw [compileLoop]; simp [hr]
+    | some r =>
+      obtain ⟨ds, hds⟩ := classDerivs_isSome F (h.good_at F hg hr)
+      by_cases hmax : i = maxStates
+      · rw [compileLoop]
+        have hbeq : (i == maxStates) = true := by simpa using hmax
+        simp [hr, hbeq]
+      · obtain ⟨b', hbk', heq⟩ :=
+          compileLoop_step F (h.good_at F hg hr) hr hds hb hmax fuel
+        rw [heq]
+        exact ih _ _ _ (h.step F hg hr hds) hbk'
 
 end RE
 end Smt
